@@ -338,9 +338,15 @@ def _gen_extras(r, fam, variant):
     kw_ok = variant in ("0", "A")
     if pos_ok and r.random() < 0.6:
         if fam in ("ident", "plainopt"):
-            args.append(["s", r.choice(["_s", "_t"])])
+            if r.random() < 0.12:
+                # a positional extra that happens to look like a keyword item
+                args.append(["t", [["s", "tag"], ["s", r.choice(["p", "q"])]]])
+            else:
+                args.append(["s", r.choice(["_s", "_t"])])
             if r.random() < 0.25:
-                args.append(["i", r.choice([0, 1])])
+                args.append(r.choice([["i", 0], ["i", 1],
+                                      ["t", [["s", "tag"], ["s", r.choice(["p", "q"])]]],
+                                      ["t", [["s", "zz"], ["i", r.choice([0, 1])]]]]))
         elif fam == "combine":
             args.append(["i", r.choice([1, 2, 5])])
         elif fam in ("collect", "dep", "csemix_dep"):
@@ -420,7 +426,10 @@ def generate(seed, tier):
     g = G(r, classes=classes, max_depth=max_depth, pool=pool_names,
           idents=["x", "y", "z", "xa"], p_ref=0.3, p_fresh=0.2,
           leaf_classes=("Variable", "Variable", "Variable", "SubVar"), **ck)
-    g.extra_fields = {"SubVar": ["s"]}
+    g.extra_fields = {"SubVar": ["s"], "TagSum": ["E"], "TagProduct": ["E"]}
+    g.classes = list(g.classes) + ["TagSum", "TagProduct"]
+    if g.weights:
+        g.weights = list(g.weights) + [1, 1]
     g.allow_short = profile == "broad"
     for k in range(npool):
         name = f"e{k}"
@@ -676,7 +685,15 @@ def execute(scenario, open_sigs):
     class SubVar(p.Variable):
         """no mapper has map_sub_var: dispatch goes through the MRO fallback path"""
 
-    B = spec.Builder({"SubVar": SubVar})
+    @p.expr_dataclass()
+    class TagSum(p.Sum):
+        mapper_method = "map_tagged"
+
+    @p.expr_dataclass()
+    class TagProduct(p.Product):
+        mapper_method = "map_tagged"
+
+    B = spec.Builder({"SubVar": SubVar, "TagSum": TagSum, "TagProduct": TagProduct})
     obs = HandlerObserver()
     events, known, probes, faults, states = [], [], {}, {}, set()
     insts = {}
